@@ -3,7 +3,7 @@ SPECIFICATION Spec
 CONSTANTS
   Senders = {1}
   MaxSend = 0
-  MaxTele = 5
+  MaxTele = 4
   M = 4
   R = 2
   T = 5
